@@ -209,8 +209,14 @@ class Module(ABC):
         # intercepts calls to channels
         if key in [c._name for c in self.base.channels]:
             channel_names = [c._name for c in self.channels]
-            inds = self.nodes.index[self.nodes[key]].to_numpy()
-            view = self.select(inds) if key in channel_names else self.select(None)
+            # A view without the channel selects nothing (`select` then raises, exactly
+            # as for a group that has no member in the view).
+            inds = (
+                self.nodes.index[self.nodes[key]].to_numpy()
+                if key in channel_names
+                else np.asarray([], dtype=int)
+            )
+            view = self.select(inds)
             view._set_controlled_by_param(key)
             return view
 
@@ -223,7 +229,7 @@ class Module(ABC):
             view = (
                 self.scope("global").edge(syn_inds).scope(orig_scope)
                 if key in self.synapse_names
-                else self.select(None)
+                else self.select(edges=np.asarray([], dtype=int))
             )
             view._set_controlled_by_param(key)  # overwrites param set by edge
             # Ensure synapse param sharing works with `edge`
